@@ -649,7 +649,7 @@ Lemma orig_damages_description :
   = [[a "alfa" 1; a "beta" 2]; [a " " 3]; [a " " 4]; [p (1 # 2) 6]; [p (3 # 4) 6]; []; [p 1 6]; []].
 Proof. vm_compute. reflexivity. Qed.
 
-Lemma orig_row5_changed : rd (fst (solve_H_orig qops fuel st0 hg0 true)) 5 <> rd st0 5.
+Lemma orig_row5_changed : rd (fst (solve_H_orig qops fuel st0 hg0 true)) 5%nat <> rd st0 5%nat.
 Proof. vm_compute. discriminate. Qed.
 
 Lemma orig_first_solve_ok : is_ok (snd (solve_H_orig qops fuel st0 hg0 true)) = true.
